@@ -301,9 +301,17 @@ MUTANTS = [
     return result_type();
   }"""},
     {"id": "C15-b", "prop": "C15", "fault": False, "expect": "byte-layout",
-     "file": "libs/core/include/fcppt/endianness/convert.hpp",
-     "old": "  return _format == std::endian::native ? _value : fcppt::endianness::swap(_value);",
-     "new": "  return _format != std::endian::native ? _value : fcppt::endianness::swap(_value);"},
+     # (io::write no longer goes through endianness::convert since fix a10f1ac: the same defect -
+     # the byte order on disk is the wrong way round - is planted where the decision is made now)
+     "file": "libs/core/include/fcppt/io/write.hpp",
+     "old": """  if (_format != std::endian::native)
+  {
+    std::reverse(bytes.begin(), bytes.end());
+  }""",
+     "new": """  if (_format == std::endian::native)
+  {
+    std::reverse(bytes.begin(), bytes.end());
+  }"""},
     {"id": "C15-c", "prop": "C15", "fault": False, "expect": "byte-layout / roundtrip",
      "file": "libs/core/src/endianness/reverse_mem.cpp",
      "old": "fcppt::make_int_range_count(_len / 2)",
